@@ -170,6 +170,45 @@ func genOpts() amf0x.Opts {
 	return amf0x.Opts{MaxDepth: 6, MaxNodes: 30, DistinctKeys: true, BigStrings: true, NoStrictElem: strictOpen()}
 }
 
+// deepChain builds containers nested depth deep (kinds rotating), a number at the bottom.
+func deepChain(depth int, kinds []amf0ref.Kind) amf0ref.Val {
+	v := amf0ref.Val{K: amf0ref.Number, Num: 0x4045000000000000}
+	for i := depth; i > 0; i-- {
+		k := kinds[i%len(kinds)]
+		c := amf0ref.Val{K: k, Props: []amf0ref.Prop{{Key: []byte("n"), Val: v}}}
+		if k == amf0ref.Ecma {
+			c.Count = 1
+		}
+		v = c
+	}
+	return v
+}
+
+// TestDeepNesting: the format has no nesting limit; chains of containers far deeper than the random trees.
+func TestDeepNesting(t *testing.T) {
+	rec := ev.New(prop, "deep-nesting", "deterministic: chains of objects / ECMA arrays nested 64, 127, 128, 129, 130, 255, 256, 257, 1000 deep, library bytes to the specification decoder and specification bytes to the library; all non-trivial")
+	rec.Exhaustive()
+	for _, depth := range []int{64, 127, 128, 129, 130, 255, 256, 257, 1000} {
+		for _, kinds := range [][]amf0ref.Kind{{amf0ref.Object}, {amf0ref.Ecma}, {amf0ref.Object, amf0ref.Ecma}} {
+			v := deepChain(depth, kinds)
+			err := ev.Try(func() error {
+				if e := checkLibCase(LCase{Val: v}); e != nil {
+					return fmt.Errorf("depth %d: %v", depth, e)
+				}
+				if e := checkRefToLib(SCase{Vals: []amf0ref.Val{v}}); e != nil {
+					return fmt.Errorf("depth %d: %v", depth, e)
+				}
+				return nil
+			})
+			rec.Case(true, ev.Hash(depth, kinds), nil, func() any { return map[string]any{"depth": depth, "kinds": kinds} })
+			if err != nil {
+				p := ev.Fail(prop, "lib-to-spec-decoder", LCase{Val: v}, err)
+				t.Fatalf("%v (replay %s)", err, p)
+			}
+		}
+	}
+}
+
 func genLCase(t *rapid.T) LCase {
 	c := LCase{Val: amf0x.Gen(t, genOpts())}
 	if rapid.IntRange(0, 2).Draw(t, "second") == 0 {
